@@ -77,6 +77,13 @@ function injections(p) {
     if (t.kind === 'self-close' && t.node && (['include', 'import', 'tis', 'slot'].includes(t.node.k) || (t.node.k === 'wxs' && t.node.src !== undefined))) {
       const tag = t.tag
       out.push({ name: `child-under-childless:${t.node.k}@${t.off}`, text: text.slice(0, t.off) + `><x/></${tag}>` + text.slice(t.offEnd), expect: ['child nodes are not allowed for this element'] })
+      // children that the parser moves out of the node list (template definitions, script modules, imports) are children all the same
+      // (not under <wxs src>, whose content is script text)
+      if (t.node.k !== 'wxs') {
+        out.push({ name: `template-definition-under-childless:${t.node.k}@${t.off}`, text: text.slice(0, t.off) + `><template name="zz9">x</template></${tag}>` + text.slice(t.offEnd), expect: ['child nodes are not allowed for this element'] })
+        out.push({ name: `script-module-under-childless:${t.node.k}@${t.off}`, text: text.slice(0, t.off) + `><wxs module="zz9">exports.a = 1</wxs></${tag}>` + text.slice(t.offEnd), expect: ['child nodes are not allowed for this element'] })
+        out.push({ name: `import-under-childless:${t.node.k}@${t.off}`, text: text.slice(0, t.off) + `><import src="zz9"/></${tag}>` + text.slice(t.offEnd), expect: ['child nodes are not allowed for this element'] })
+      }
       out.push({ name: `child-after-comment-under-childless:${t.node.k}@${t.off}`, text: text.slice(0, t.off) + `><!-- c --><x/></${tag}>` + text.slice(t.offEnd), expect: ['child nodes are not allowed for this element'] })
       out.push({ name: `child-after-blank-under-childless:${t.node.k}@${t.off}`, text: text.slice(0, t.off) + `>\n  <x/>\n</${tag}>` + text.slice(t.offEnd), expect: ['child nodes are not allowed for this element'] })
       // (not a defect: a comment, with or without blanks around it, is no child node)
